@@ -11,6 +11,11 @@
 (***************************************************************************)
 EXTENDS MC_ConcSelect
 
+CONSTANT EmitAll   \* TRUE: every quiescent state; FALSE: only where a budget is exhausted or all tasks are finished
+
 Quiet == cur = 0 /\ sel \in {"no", "wait"}
-EmitState == IF Hist = "on" /\ Quiet /\ h # <<>> THEN PrintT(ToJson(h)) ELSE TRUE
+Final == \/ xn = MaxExt \/ sn = MaxSel
+         \/ \A t \in Tasks : ts[t] \in {"done", "dead"}
+         \/ sel = "wait"
+EmitState == IF Hist = "on" /\ Quiet /\ h # <<>> /\ (EmitAll \/ Final) THEN PrintT(ToJson(h)) ELSE TRUE
 =============================================================================
